@@ -139,3 +139,12 @@ Proof.
   split; [exact ex6_frag2|]. split; [exact ex6_derived|]. split; [exact ex6_enum|]. split; [exact ex6_nkeys|]. split; [exact ex6_nvalid|].
   split; [exact ex6_inj|]. split; [exact ex6_complete|]. split; [exact ex7_nacc|]. split; [exact ex7_nvalid | exact ex7_complete].
 Qed.
+
+(** a nested design (sustained outer crossing): 8 accepted candidates = 8 valid sequences *)
+Example C05_example_nested :
+  frag2 ex8_flat = true /\ enumerates_b ex8_flat = true /\ length (accepted_keys ex8_flat) = 8 /\
+  length (all_valid (code_sem ex8_flat)) = 8 /\ check_inj ex8_flat = true /\ check_complete ex8_flat = true.
+Proof.
+  split; [exact ex8_frag2|]. split; [exact ex8_enum|]. split; [exact ex8_nacc|]. split; [exact ex8_nvalid|].
+  split; [exact ex8_inj | exact ex8_complete].
+Qed.
